@@ -6,6 +6,14 @@ NOTES = ('Static analysis only: every verdict is computed from the ast of /repo/
          'Exit 2 + ANALYSIS-ERROR means the analysis could not decide (never a verdict).')
 
 CHECKS = {
+    'C12': {
+        'level': 'Formal identity between every Bicomplex operation and the holomorphic extension given by the idempotent decomposition: '
+                 'ring operations and exp/sin/cos/sinh/cosh/expm1 by a decision procedure on exp-polynomials of symbolic components; log, '
+                 'log1p, mod_c, arg_c and powers under a polar substitution; division and all derived / inverse functions against the '
+                 'textbook identity table in a formal field of functions. Branch cuts, regularisers and rounding are not decided.',
+        'note': 'Regularisers (_TINY, clip) dropped, principal branch assumed. Trusted: exact algebra, "idempotent decomposition is a ring isomorphism".',
+        'technique': 'abstract interpretation of the Bicomplex method bodies over exact exp-polynomial / rational-function algebra; comparison with specification terms',
+    },
     'C09': {
         'level': 'History independence is decided on a table of operation sequences (setter changes / restores, shared step generator, '
                  'warm rule cache with neighbouring ratios and sibling rows, repeated calls with other arguments) by comparing the abstract '
